@@ -238,7 +238,7 @@ def strStep (c : UInt8) (r1 : Bytes) (validate : Bool) : Step :=
       if !Utf8.fullRune (c :: r1) then .stop .none .eof
       else if validate then .stop .nvnc .invalidUTF8
       else .adv 0 .nvnc
-    else .stop .nvnc .invalidChar   -- r < ' ' (the `default: panic` arm is unreachable, see `Lemmas/ResumeStr`)
+    else .stop .nvnc .invalidChar   -- r < ' ' (the `default: panic` arm is unreachable: `strStep_default_unreachable` in Lemmas/ResumeStr)
 
 /-- the main loop from offset `n` with `r = b[n:]`: (n, flags, err). -/
 def strLoop (r : Bytes) (n : Nat) (f : VFlags) (validate : Bool) : Nat × VFlags × Err :=
